@@ -500,7 +500,11 @@ func checkMate(m int, p1, p2 *genetics.Genome, f1, f2 float64, c *genetics.Genom
 				okw = true
 			}
 		}
-		if a != nil && b != nil && m != 0 && g.Link.ConnectionWeight == (a.Link.ConnectionWeight+b.Link.ConnectionWeight)/2 {
+		if a != nil && b != nil && m == 1 {
+			// the averaging method: a gene present in both parents carries exactly the mean
+			okw = math.Float64bits(g.Link.ConnectionWeight) == math.Float64bits((a.Link.ConnectionWeight+b.Link.ConnectionWeight)/2)
+		}
+		if a != nil && b != nil && m == 2 && g.Link.ConnectionWeight == (a.Link.ConnectionWeight+b.Link.ConnectionWeight)/2 {
 			okw = true
 		}
 		if !okw {
